@@ -78,33 +78,55 @@ def random_kripke_data(rng, max_n=6, atoms=ATOMS2):
     return (list(range(n)), R, L)
 
 
+def _shape_key(data):
+    import zlib
+    S, R, L = data
+    key = repr((sorted(map(repr, S)), sorted(map(repr, R)),
+                sorted((repr(k), sorted(map(repr, v))) for k, v in L.items()) if isinstance(L, dict) else repr(L)))
+    return zlib.crc32(key.encode())
+
+
 def initial_states(data):
     """The S0 argument the checks build the structure `data` with: a fixed function of the structure (so that a
     replay rebuilds the same object), cycling through no S0, the first state, the last state and every state.  No
     property lets an answer depend on the initial states; a quarter of the structures is built without them."""
-    import zlib
-    S, R, L = data
-    S = list(S)
-    key = repr((sorted(map(repr, S)), sorted(map(repr, R)),
-                sorted((repr(k), sorted(map(repr, v))) for k, v in L.items()) if isinstance(L, dict) else repr(L)))
-    mode = zlib.crc32(key.encode()) % 4
+    S = list(data[0])
+    mode = _shape_key(data) % 4
     if mode == 0 or not S:
         return None
     return [S[0]] if mode == 1 else [S[-1]] if mode == 2 else list(S)
 
 
+def constructor_args(data):
+    """(S, S0, R, L) as actually passed to Kripke: besides the initial states, the CONTAINERS vary with the structure
+    (label values as set / list / tuple / frozenset / list with a repeated atom; transitions as list / reversed list /
+    set / tuple) - all legal presentations of the same structure, fixed per structure for replay."""
+    S, R, L = data
+    k = _shape_key(data)
+    S0 = initial_states(data)
+    lm, rm = (k >> 2) % 5, (k >> 5) % 4
+    if isinstance(L, dict):
+        conv = (set, list, tuple, frozenset, lambda v: list(v) + list(v)[:1])[lm]
+        L = dict((s, conv(sorted(v, key=repr))) for s, v in L.items())
+    R = list(R)
+    try:
+        R = (R, R[::-1], set(R), tuple(R))[rm]
+    except TypeError:        # (unhashable states: keep the list)
+        pass
+    return S, S0, R, L
+
+
 def mk_kripke(data):
     from pyModelChecking import Kripke
-    S, R, L = data
-    S0 = initial_states(data)
+    S, S0, R, L = constructor_args(data)
     if S0 is None:
         return Kripke(S=S, R=R, L=L)
     return Kripke(S=S, S0=S0, R=R, L=L)
 
 
 def ktext(data):
-    S0 = initial_states(data)
-    return 'Kripke(S=%r,%sR=%r,L=%r)' % (data[0], '' if S0 is None else 'S0=%r,' % (S0,), data[1], data[2])
+    S, S0, R, L = constructor_args(data)
+    return 'Kripke(S=%r,%sR=%r,L=%r)' % (S, '' if S0 is None else 'S0=%r,' % (S0,), R, L)
 
 
 def fairness_lists(states, max_len=2):
